@@ -698,6 +698,12 @@ pub fn scripts_with_deviations(seed: u64, n: usize, values: &[u64], max_dev: usi
             out.push(mk(&[(j, v)]));
         }
     }
+    // one more single deviation, three words long: a normal draw ten standard deviations out (ziggurat layer 0
+    // with u close to +1, then the tail sampler's two uniforms at 2^-30 and 2^-53) - with the heavy-tailed
+    // price distributions the sampled distance is then beyond 10^40 ticks, past every integer width
+    for j in 0..n.saturating_sub(2) {
+        out.push(mk(&[(j, 0xFFFF_FFFF_FFFF_FF00), (j + 1, 0x0000_0004_0000_0000), (j + 2, 0)]));
+    }
     if max_dev >= 2 {
         for j in 0..n {
             for j2 in (j + 1)..n {
